@@ -520,6 +520,14 @@ func c03Alphabet(s *sessSys) []sessReq {
 					add("mod-ufar-buffer", sessReq{sReq: sReq{Kind: kMod, Conn: c, UpdateFAR: []sFAR{{ID: 2, Action: ActionBuffer | ActionNotify, HasFwd: true}}}, Sess: x.Idx})
 				}
 			}
+			if f1, f2 := x.far(1), x.far(2); f1 != nil && f2 != nil && f1.Action&ActionForward != 0 && f1.OHCIP == "" {
+				// several Update FARs in one request, the one that carries a tunnel in front of one that carries none (and the other
+				// way round): each FAR is programmed with its own parameters
+				u2 := sFAR{ID: 2, Action: ActionForward, HasFwd: true, HasDst: true, Dst: ie.DstInterfaceAccess, OHCIP: "11.1.1.142", OHCTEID: 0x7779}
+				u1 := sFAR{ID: 1, Action: ActionForward, HasFwd: true, HasDst: true, Dst: ie.DstInterfaceCore}
+				add("mod-ufar-tunnel-then-plain", sessReq{sReq: sReq{Kind: kMod, Conn: c, UpdateFAR: []sFAR{u2, u1}}, Sess: x.Idx})
+				add("mod-ufar-plain-then-tunnel", sessReq{sReq: sReq{Kind: kMod, Conn: c, UpdateFAR: []sFAR{u1, u2}}, Sess: x.Idx})
+			}
 			add("mod-ufar-unknown", sessReq{sReq: sReq{Kind: kMod, Conn: c, UpdateFAR: []sFAR{{ID: 77, Action: ActionDrop, HasFwd: true}}}, Sess: x.Idx})
 			if xue != "" && xteid != 0 {
 				if x.pdr(5) == nil && x.pdr(6) == nil && x.far(3) == nil && x.qer(7) == nil {
